@@ -52,6 +52,8 @@ pub use self::pool::bench_replay_votes;
 pub use self::pool::{AddVoteError, Pool, PoolEvent, PoolImpl, SharedPool};
 #[cfg(feature = "verif-hooks")]
 pub use self::pool::AddCertError;
+#[cfg(feature = "verif-hooks")]
+pub use self::pool::verif as pool_verif;
 pub use self::validated_cert::{CertValidationError, ValidatedCert};
 pub use self::validated_vote::{ValidatedVote, VoteValidationError};
 pub use self::vote::{FinalVote, NotarFallbackVote, NotarVote, SkipFallbackVote, SkipVote, Vote};
